@@ -47,7 +47,7 @@ BUDGET_S = {"quick": 75, "thorough": 800}
 
 def plan(tier):
     if tier == "quick":
-        return [{"n": 170, "i": i} for i in range(15)] + [{"flips": True, "sessions": 1}]
+        return [{"n": 130, "i": i} for i in range(15)] + [{"flips": True, "sessions": 1}]
     return [{"n": 12000, "i": i} for i in range(15)] + [{"flips": True, "sessions": 3}]
 
 
